@@ -31,7 +31,9 @@ def run_check(prop, repo, tier, scale, extra=()):
          '--repo', repo, '--no-evidence', '--no-selftest',
          '--runs-scale', str(scale)] + list(extra)
   t0 = time.time()
-  p = subprocess.run(cmd, capture_output=True, text=True)
+  env = dict(os.environ)
+  env['DSIM_REPLAY_DIR'] = os.path.join(repo, '_replays')  # scratch, removed with the copy
+  p = subprocess.run(cmd, capture_output=True, text=True, env=env)
   return p.returncode, p.stdout, time.time() - t0
 
 
